@@ -530,6 +530,7 @@ def j_traces(cx, ntraces, trees, soup, depth):
             raise nv.ToolError("trace validation did not consume all lines of %s (%s)" % (p, r["violated"]))
         for c in r["res"].cases.get("CASE", []):
             x = rows[c["line"] - 1]
+            x["disagrees"] = True
             add_pending(cx, {"kind": "trace-line-rejected", "source": "J/" + os.path.basename(p), "line": c["line"],
                              "tokens": " ".join(t[0] + (":" + t[1] if t[1] else "") for t in x["toks"]), "toks": x["toks"],
                              "text": x["text"], "pieces": x.get("pieces"), "expected": c["expected"], "impl": x["out"], "msg": x.get("msg", ""),
@@ -594,20 +595,21 @@ def self_tests(cx, jpaths):
     rep.notes["selftest_G_corrupted_expectation_detected"] = noticed
     if not noticed:
         raise nv.ToolError("binding self-test failed: corrupted expectation not detected")
-    # (3) J: a corrupted recorded tree is rejected at exactly that line
+    # (3) J: a corrupted recorded tree is rejected at exactly that line (strict configuration: the trace is consumed up to
+    #     the first disagreeing line; built from the lines that agreed)
     p, rows = jpaths[0]
-    k = next(i for i in range(len(rows) // 2, len(rows)) if rows[i]["out"][0] in BINARY and rows[i]["out"][1] != rows[i]["out"][2])
-    badrows = [dict(r) for r in rows]
-    t = badrows[k]["out"]
-    badrows[k]["out"] = [t[0], t[2], t[1]]
+    good = [r for r in rows if not r.get("disagrees")]
+    k = next(i for i in range(len(good) // 2, len(good)) if good[i]["out"][0] in BINARY and good[i]["out"][1] != good[i]["out"][2])
+    t = good[k]["out"]
+    lines = [{"toks": r["toks"], "out": r["out"]} for r in good[:k + 50]]
+    lines[k] = {"toks": good[k]["toks"], "out": [t[0], t[2], t[1]]}
     bp = os.path.join(cx.sc, "trace_corrupt.ndjson")
-    nv.write_ndjson(bp, [{"toks": r["toks"], "out": r["out"]} for r in badrows[:k + 50]])
+    nv.write_ndjson(bp, lines)
     r = nv.validate_trace("Trace_Grammar", bp)
-    first_bad = r["matched"]
-    rep.notes["selftest_J_corrupted_line_rejected_at"] = first_bad
-    rep.notes["selftest_J_corrupted_line"] = k
-    if r["accepted"] or first_bad is None or first_bad > k:
-        raise nv.ToolError("binding self-test failed: corrupted trace line %d not rejected (%s)" % (k, first_bad))
+    rep.notes["selftest_J_corrupted_line_rejected_after_matching"] = r["matched"]
+    rep.notes["selftest_J_corrupted_line_index"] = k
+    if r["accepted"] or r["matched"] != k:
+        raise nv.ToolError("binding self-test failed: corrupted trace line %d not rejected there (%s)" % (k, r["matched"]))
 
 
 def run(tier, seed):
@@ -671,7 +673,8 @@ def replay(path, seed):
     for v, r in zip(vs, rows):
         before = len(cx.pending)
         compare(cx, "replay", v["tokens"], v["expected"], r)
-        bad = len(cx.pending) > before
+        # (texts that do not lex as intended are a different violation kind; they are listed as such by a full run)
+        bad = any(x["kind"] == "parse-mismatch" for x in cx.pending[before:])
         still += bad
         print(json.dumps({"tokens": v["tokens"], "text": v.get("text"), "expected": tree_to_sexpr(v["expected"]),
                           "impl_now": r["o"], "still_violated": bad}, ensure_ascii=False)[:1500])
